@@ -343,6 +343,45 @@ pub fn gen_c08(prop: &str, tier: Tier, rng: &mut Rng, seed: u64, run: u64) -> Pl
                     let t = st.next(rng);
                     plan.push("SS", &[(lo + j) as i64, t, fb(p), fb(v), fb(a)]);
                 }
+            } else if let (Some(r), true) = (specs[d].gear_ratio(), hi - lo == 2) {
+                // gear train: side 2 = ratio * side 1 computed the way the device computes it, then
+                // (often) one or two components knocked off by a few ulps or replaced - readings that
+                // *nearly* mesh or mesh in some components only still have to be projected
+                let s1 = [rng.moderate_f32() * scale, rng.moderate_f32() * scale, rng.moderate_f32() * scale];
+                let mut s2 = [s1[0] * r, s1[1] * r, s1[2] * r];
+                if rng.chance(0.6) {
+                    for _ in 0..rng.range(1, 2) {
+                        let c = rng.below(3) as usize;
+                        s2[c] = match rng.below(3) {
+                            0 => f32::from_bits(s2[c].to_bits().wrapping_add(rng.range(1, 3) as u32)),
+                            1 => s2[c] * (1.0 + 1e-5),
+                            _ => rng.moderate_f32() * scale,
+                        };
+                        if !s2[c].is_finite() {
+                            s2[c] = 0.0;
+                        }
+                    }
+                }
+                let t = st.next(rng);
+                plan.push("SS", &[lo as i64, t, fb(s1[0]), fb(s1[1]), fb(s1[2])]);
+                let t2 = st.next(rng);
+                plan.push("SS", &[lo as i64 + 1, t2, fb(s2[0]), fb(s2[1]), fb(s2[2])]);
+            } else if let (DevSpec::Diff(_), true) = (&specs[d], hi - lo == 3) {
+                // differential: sum = side1 + side2 exactly, sometimes off in one component
+                let a = [rng.moderate_f32() * scale, rng.moderate_f32() * scale, rng.moderate_f32() * scale];
+                let b = [rng.moderate_f32() * scale, rng.moderate_f32() * scale, rng.moderate_f32() * scale];
+                let mut c = [a[0] + b[0], a[1] + b[1], a[2] + b[2]];
+                if rng.chance(0.5) {
+                    let k = rng.below(3) as usize;
+                    c[k] = if rng.chance(0.5) { f32::from_bits(c[k].to_bits().wrapping_add(1)) } else { rng.moderate_f32() * scale };
+                    if !c[k].is_finite() {
+                        c[k] = 0.0;
+                    }
+                }
+                for (j, x) in [a, b, c].iter().enumerate() {
+                    let t = st.next(rng);
+                    plan.push("SS", &[(lo + j) as i64, t, fb(x[0]), fb(x[1]), fb(x[2])]);
+                }
             }
         }
         let nupd = rng.range(1, 2 * ndev as i64);
